@@ -162,6 +162,48 @@ let handle (t : string array) =
        List.iter (fun (p, st) -> match f_part_eval fexp (tl ()) p st (z 0) (z 1) (z 2) with Done v -> Printf.printf " %s" (hc v) | o -> Printf.printf " %s %s" (oc_name o) (oc_name o))
          (computed_parts 0 ps);
        print_newline ())
+  | "scale" ->
+    (* scale i j k l nz {z1re z1im z2re z2im z3re z3im}: magnitudes for the comparison tolerance (tolerance only, no claim):
+       S0 = sum over parts, visited quadruples and the four pieces of the multiterm of |piece|, with the weights entering
+            a difference counted as |w|+|w'| (cancellation), S1 = the same with every piece multiplied by sum_k 1/|denominator_k|
+            (sensitivity to a shift of the poles), S2 = sum of the inverse-denominator products alone (absolute truncation) *)
+    let i = ios (a 1) and j = ios (a 2) and k = ios (a 3) and l = ios (a 4) and nz = ios (a 5) in
+    (match prepared i j k l with
+     | None -> ()
+     | Some ps ->
+       Printf.printf "SCALE %d %d %d %d" i j k l;
+       let no = fops fexp in
+       for f = 0 to nz - 1 do
+         let z q = c (fos (a (6 + 6 * f + 2 * q))) (fos (a (7 + 6 * f + 2 * q))) in
+         let s0 = ref 0. and s1 = ref 0. and s2 = ref 0. in
+         List.iter (fun (p : fc part_in) ->
+             let zs = [| z 0; z 1; fopp (z 2) |] in
+             let ((p0, p1), p2) = p.p_perm in
+             let y1 = zs.(p0) and y2 = zs.(p1) and y3 = zs.(p2) in
+             let cabs (x : fc) = Stdlib.sqrt (re x *. re x +. im x *. im x) in
+             (match f_part_visits fexp 0 p with
+              | Done vs ->
+                List.iter (fun (v : fc visit) ->
+                    let e1 = re (List.nth p.p_E1 v.v_i1) and e2 = re (List.nth p.p_E2 v.v_i2) and e3 = re (List.nth p.p_E3 v.v_i3) and e4 = re (List.nth p.p_E4 v.v_i4) in
+                    let w1 = re (List.nth p.p_W1 v.v_i1) and w2 = re (List.nth p.p_W2 v.v_i2) and w3 = re (List.nth p.p_W3 v.v_i3) and w4 = re (List.nth p.p_W4 v.v_i4) in
+                    let me = cabs v.v_O1 *. cabs v.v_O2 *. cabs (coeff no p.p_O3 v.v_i3 v.v_i4) *. cabs (coeff no p.p_CX4 v.v_i1 v.v_i4) in
+                    let d x e = Float.max 1e-300 (cabs (fsub x (c e 0.))) in
+                    let d1 = d y1 (e2 -. e1) and d2 = d y2 (e3 -. e2) and d3 = d y3 (e4 -. e3) in
+                    let d4 = d (fadd (fadd y1 y2) y3) (e4 -. e1) in
+                    let d12 = cabs (fsub (fadd y1 y2) (c (e3 -. e1) 0.)) and d23 = cabs (fsub (fadd y2 y3) (c (e4 -. e2) 0.)) in
+                    let b = !beta in
+                    let piece v inv = s0 := !s0 +. me *. v; s1 := !s1 +. me *. v *. inv in
+                    piece ((w1 +. w4) /. (d1 *. d4 *. d3)) (1. /. d1 +. 1. /. d4 +. 1. /. d3);
+                    piece ((w2 +. w3) /. (d1 *. d2 *. d3)) (1. /. d1 +. 1. /. d2 +. 1. /. d3);
+                    (if d12 < 1e-8 then piece (b *. w1 /. (d1 *. d3)) (1. /. d1 +. 1. /. d3)
+                     else piece ((w1 +. w3) /. (d12 *. d1 *. d3)) (1. /. d1 +. 1. /. d3 +. 1. /. d12));
+                    (if d23 < 1e-8 then piece (b *. w2 /. (d1 *. d3)) (1. /. d1 +. 1. /. d3)
+                     else piece ((w2 +. w4) /. (d23 *. d1 *. d3)) (1. /. d1 +. 1. /. d3 +. 1. /. d23));
+                    s2 := !s2 +. Float.max 1. me *. (1. /. (d1 *. d4 *. d3) +. 1. /. (d1 *. d2 *. d3)
+                                  +. (1. +. 1. /. Float.max 1e-8 d12 +. 1. /. Float.max 1e-8 d23) /. (d1 *. d3))) vs
+              | _ -> ())) ps;
+         Printf.printf " %h %h %h" !s0 !s1 !s2
+       done; print_newline ())
   | "mt" ->
     let cx s = match String.split_on_char ',' s with [r; i] -> c (fos r) (fos i) | [r] -> c (fos r) 0. | _ -> failwith "complex" in
     let v k = cx (a k) in
